@@ -155,6 +155,8 @@ pub fn check_wrap(c: &Wrap) -> Outcome {
         (2 | 3, Some((_, v)), R::Val(g)) => same(v, g),
         (2, None, R::Val(V::Null)) => true,
         (3, None, R::Err(..)) => true,
+        // no entry of that name: `m.size` may denote the function `size` (entries take precedence over functions, not the reverse)
+        (3, None, R::Val(V::Func(..))) => true,
         _ => false,
     };
     if !ok {
@@ -191,6 +193,25 @@ fn falsy_cases() -> Vec<Wrap> {
                         continue;
                     }
                     out.push(Wrap { entries: vec![(k.clone(), v.clone()), (V::s("pad"), V::Int(1))], query: q.clone(), form, literal });
+                }
+            }
+        }
+    }
+    out
+}
+
+/// string keys spelled like registered functions: an entry of that name is an entry like any other under every query form
+fn function_named_cases() -> Vec<Wrap> {
+    let mut out = vec![];
+    for name in ["size", "contains", "max", "min", "string", "matches", "startsWith", "int", "has", "all", "map"] {
+        for present in [true, false] {
+            for form in 0..5u8 {
+                for literal in [false, true] {
+                    let mut entries = vec![(V::s("pad"), V::Int(1))];
+                    if present {
+                        entries.insert(0, (V::s(name), V::Int(7)));
+                    }
+                    out.push(Wrap { entries, query: V::s(name), form, literal });
                 }
             }
         }
@@ -261,10 +282,27 @@ pub fn check_list_in(c: &ListIn) -> Outcome {
     pass_n(true, vec![if exp { "in-list-true" } else { "in-list-false" }])
 }
 
+/// `x in l` where the element *is* x (the same shared value on both sides): membership is still "some element equals x",
+/// and a collection holding NaN does not equal itself
+pub fn check_alias_in(x: &V) -> Outcome {
+    let vars = vec![("x".to_string(), x.clone())];
+    let exp = cel_eq(x, x).unwrap_or(false);
+    for src in ["x in [x]", "x in [0, x]", "[x].contains(x)", "[x] in [[x]]", "[[x]].contains([x])", "x in [x, x]"] {
+        match sut::run_src(src, &vars) {
+            Ran::Done(R::Val(V::Bool(b))) if b == exp => {}
+            o => return fail(format!("`{src}` with x = {x:?}: x == x is {exp}, so membership must be {exp}; observed {}", o.show())),
+        }
+    }
+    pass_n(!exp, vec![if exp { "alias-in-true" } else { "alias-in-false" }])
+}
+
 #[derive(Clone, Debug, Serialize, Deserialize)]
 pub struct Law {
     pub a: V,
     pub b: V,
+    /// spell the operands as literals inside the program instead of passing them as variables
+    #[serde(default)]
+    pub literal: bool,
 }
 
 fn expect_true(src: &str, vars: &[(String, V)]) -> Result<(), String> {
@@ -276,14 +314,21 @@ fn expect_true(src: &str, vars: &[(String, V)]) -> Result<(), String> {
 
 pub fn check_law(c: &Law) -> Outcome {
     let vars = vec![("a".to_string(), c.a.clone()), ("b".to_string(), c.b.clone())];
+    // operand spellings: the variables, or (when asked for and possible) the values written out as literals
+    let (a, b) = match (c.literal, lit::lit(&c.a), lit::lit(&c.b)) {
+        (true, Some(x), Some(y)) => (x, y),
+        _ => ("a".to_string(), "b".to_string()),
+    };
     let run = || -> Result<&'static str, String> {
-        expect_true("size(a + b) == size(a) + size(b)", &vars)?;
-        expect_true("(a + b).size() == a.size() + b.size()", &vars)?;
+        expect_true(&format!("size({a} + {b}) == size({a}) + size({b})"), &vars)?;
+        expect_true(&format!("({a} + {b}).size() == {a}.size() + {b}.size()"), &vars)?;
+        // size of the literal and of the equal variable agree (whatever unit size counts in)
+        expect_true(&format!("size({a}) == size(a) && {b}.size() == b.size() && size({a} + b) == size(a + {b})"), &vars)?;
         match (&c.a, &c.b) {
             (V::List(xa), V::List(xb)) => {
                 // element order and operands intact, checked on the values themselves
                 let exp: Vec<V> = xa.iter().chain(xb.iter()).cloned().collect();
-                match sut::run_src("[a + b, a, b]", &vars) {
+                match sut::run_src(&format!("[{a} + {b}, {a}, {b}]"), &vars) {
                     Ran::Done(R::Val(V::List(parts))) if parts.len() == 3 => {
                         if !same(&parts[0], &V::List(exp.clone())) {
                             return Err(format!("a + b with a={:?} b={:?} gives {:?}", c.a, c.b, parts[0]));
@@ -295,7 +340,7 @@ pub fn check_law(c: &Law) -> Outcome {
                     o => return Err(format!("`[a + b, a, b]`: {}", o.show())),
                 }
                 for i in 0..exp.len() {
-                    let src = format!("(a + b)[{i}]");
+                    let src = format!("({a} + {b})[{i}]");
                     match sut::run_src(&src, &vars) {
                         Ran::Done(R::Val(g)) if same(&g, &exp[i]) => {}
                         o => return Err(format!("`{src}` a={:?} b={:?}: expected {:?}, observed {}", c.a, c.b, exp[i], o.show())),
@@ -315,12 +360,12 @@ pub fn check_law(c: &Law) -> Outcome {
                 Ok("law:list")
             }
             (V::Str(sa), V::Str(sb)) => {
-                expect_true("(a + b).startsWith(a)", &vars)?;
-                expect_true("(a + b).endsWith(b)", &vars)?;
-                expect_true("(a + b).contains(a)", &vars)?;
-                expect_true("(a + b).contains(b)", &vars)?;
-                expect_true("startsWith(a + b, a) && endsWith(a + b, b)", &vars)?;
-                match sut::run_src("[a + b, a, b]", &vars) {
+                expect_true(&format!("({a} + {b}).startsWith({a})"), &vars)?;
+                expect_true(&format!("({a} + {b}).endsWith({b})"), &vars)?;
+                expect_true(&format!("({a} + {b}).contains({a})"), &vars)?;
+                expect_true(&format!("({a} + {b}).contains({b})"), &vars)?;
+                expect_true(&format!("startsWith({a} + {b}, {a}) && endsWith({a} + {b}, {b})"), &vars)?;
+                match sut::run_src(&format!("[{a} + {b}, {a}, {b}]"), &vars) {
                     Ran::Done(R::Val(V::List(parts))) if parts.len() == 3 => {
                         if !same(&parts[0], &V::Str(format!("{sa}{sb}"))) || !same(&parts[1], &c.a) || !same(&parts[2], &c.b) {
                             return Err(format!("[a + b, a, b] with a={:?} b={:?} gives {:?}", c.a, c.b, parts));
@@ -341,7 +386,7 @@ pub fn check_law(c: &Law) -> Outcome {
                 (V::List(x), V::List(y)) => !x.is_empty() && !y.is_empty(),
                 _ => false,
             };
-            pass_n(nonempty && (nonascii || cl == "law:list"), vec![cl])
+            pass_n(nonempty && (nonascii || cl == "law:list"), vec![cl, if a == "a" { "operands:variables" } else { "operands:literals" }])
         }
         Err(e) => fail(e),
     }
@@ -391,6 +436,7 @@ pub fn run(r: &mut Runner) {
     r.sweep("map-literals", subsets.iter().map(|k| MapLit { keys: k.clone() }).collect(), check_map_literal);
     r.sweep("wrapping-int-uint-keys", wrap_cases(), check_wrap);
     r.sweep("falsy-values-under-every-query-form", falsy_cases(), check_wrap);
+    r.sweep("function-named-string-keys", function_named_cases(), check_wrap);
     {
         let alpha = [V::Int(1), V::Int(2), V::s("a")];
         let mut cases = vec![];
@@ -423,6 +469,25 @@ pub fn run(r: &mut Runner) {
         r.sweep("lists-x-indices", cases, check_list_index);
         r.sweep("lists-x-membership", cases_in, check_list_in);
     }
+    {
+        let nan = V::f(f64::NAN);
+        let xs = vec![
+            V::Int(1),
+            V::s("a"),
+            nan.clone(),
+            V::List(vec![]),
+            V::List(vec![V::Int(1)]),
+            V::List(vec![nan.clone()]),
+            V::List(vec![V::Int(1), nan.clone()]),
+            V::List(vec![V::List(vec![nan.clone()])]),
+            V::Map(vec![(V::s("k"), nan.clone())]),
+            V::Map(vec![(V::s("k"), V::Int(1))]),
+            V::Map(vec![(V::Int(1), V::List(vec![nan.clone()]))]),
+            V::Bytes(vec![1, 2]),
+            V::f(0.0),
+        ];
+        r.sweep("membership-of-aliased-values", xs, check_alias_in);
+    }
     let n = r.tier.n(6_000, 300_000);
     r.random(
         "random-concatenation-laws",
@@ -430,12 +495,12 @@ pub fn run(r: &mut Runner) {
         n,
         |u: &mut Chooser| {
             if u.flip() {
-                Law { a: V::Str(gen_string(u)), b: V::Str(gen_string(u)) }
+                Law { a: V::Str(gen_string(u)), b: V::Str(gen_string(u)), literal: u.flip() }
             } else {
                 let o = ValOpts::CORE;
                 let la = (0..u.below(5)).map(|_| gen_value(u, 2, o)).collect();
                 let lb = (0..u.below(5)).map(|_| gen_value(u, 2, o)).collect();
-                Law { a: V::List(la), b: V::List(lb) }
+                Law { a: V::List(la), b: V::List(lb), literal: u.chance(1, 3) }
             }
         },
         check_law,
